@@ -85,6 +85,28 @@ func C10(c *Ctx) int {
 		Job: JobOpts{Perturb: 3, EagerAnswer: true, LingerMs: -1, HoldPoints: []string{"flow.action"}}}); err != nil {
 		c.Infraf("%v", err)
 	}
+	// the host is answered with an error whose handler decides skip / exit (or without a handler):
+	// the activity is over then as well, its boundary events no longer react
+	{
+		var errs []*prog.Program
+		for _, p := range ps {
+			if p.Name == "bnd_n" || p.Name == "bnd_i" {
+				q := *p
+				q.Name = p.Name + "_err"
+				q.Nodes = append([]prog.Node(nil), p.Nodes...)
+				for i := range q.Nodes {
+					if q.Nodes[i].Kind == "task" {
+						q.Nodes[i].Retries = 1
+					}
+				}
+				errs = append(errs, &q)
+			}
+		}
+		if err := c.TokenGameRound(fs, errs, RoundOpts{Label: "after-error", MaxSteps: 5, MaxPerProg: 60,
+			Features: []string{"deliver", "err"}, MaxDeliver: 2, MaxRetry: 0, ExtraTags: tags, NodeRole: role}); err != nil {
+			c.Infraf("%v", err)
+		}
+	}
 	c.Extra["programs"] = len(ps)
 	return c.Finish("model_checking", "tasks and sub-processes with 1..2 boundary events of either kind; TLC enumerates interleavings of {event delivered, host answered} including event before activation, repeated events, answer after the event; replay + TokenGameTrace (exception flow once / once per event, normal flow never after an interrupting event, completion after the host finished)", false, fs)
 }
